@@ -287,8 +287,14 @@ class Ctx:
         """Write a generated .v (gen/ or cases/) and compile it."""
         where = where or GEN
         f = where / f"{name}.v"
+        lock = open(str(f) + ".lock", "w")
+        fcntl.flock(lock, fcntl.LOCK_EX)  # generated files have fixed module names: serialise writers
         f.write_text(text)
-        rc, out, dt = sh(["timeout", str(timeout), "coqc", *COQ_FLAGS, str(f)], cwd=COQ, timeout=timeout + 30)
+        try:
+            rc, out, dt = sh(["timeout", str(timeout), "coqc", *COQ_FLAGS, str(f)], cwd=COQ, timeout=timeout + 30)
+        finally:
+            fcntl.flock(lock, fcntl.LOCK_UN)
+            lock.close()
         return rc == 0, out
 
     def eval_cases(self, name: str, header: str, case_terms: list[str], runner: str,
@@ -302,7 +308,7 @@ class Ctx:
             body = [header, "", f"Definition cases := {coq_list(sh_cases)}.",
                     "Definition bad := filter (fun ic => negb (snd ic)) (combine (seq 0 (length cases)) (map (" + runner + ") cases)).",
                     'Eval vm_compute in (map fst bad).', ""]
-            f = CASES / f"{name}_{k}.v"
+            f = CASES / f"{name}_p{os.getpid()}_{k}.v"  # pid: concurrent runs of one check must not collide
             f.write_text("\n".join(body))
             files.append(f)
         bad: list[int] = []
